@@ -33,6 +33,10 @@ func c12Producers() []c12Producer {
 		ps = append(ps, c12Producer{fmt.Sprintf("between(1, %d, X), tick .", k), fmt.Sprintf("Finite %d%%nat None", k), k})
 		ps = append(ps, c12Producer{fmt.Sprintf("(between(1, %d, X), tick ; tick0, throw(oops)) .", k), fmt.Sprintf(`Finite %d%%nat (Some "oops")`, k), k})
 	}
+	// a pending search under catch/3: Close must not look like an error to the program
+	ps = append(ps, c12Producer{"catch((between(1, 3, X), tick), _, tick) .", "Finite 3%nat None", 3})
+	ps = append(ps, c12Producer{"catch((between(1, 2, X), tick), error(_, _), tick) .", "Finite 2%nat None", 2})
+	ps = append(ps, c12Producer{"findall(Y, catch((between(1, 2, Y), tick0), _, true), L), between(1, 2, X), catch(tick, _, tick) .", "Finite 2%nat None", 2})
 	ps = append(ps, c12Producer{"repeat, tick, X = 1 .", "Infinite", -1})
 	return ps
 }
